@@ -76,6 +76,14 @@ class BranchSuite(Suite):
                 c["k"] = rng.choice([3, 5, 5, 7, 4])
             if sum(lens) == 0:
                 c["class"] += "/zero-length"
+            if rng.random() < 0.3:
+                # transform objects are built once and mapped over many branches: the SAME object has been applied to other
+                # branches (same / other point count) before
+                c["prior"] = []
+                for _q in range(rng.randint(1, 2)):
+                    pp, _, pr = polyline(rng, rng.choice([npts, npts, 2, 3, 7]), zero_ok=False)
+                    c["prior"].append({"pts": pp, "r": pr})
+                c["class"] += "/reused"
             out.append(c)
         for kind, extra in (("iso", {"d": 0.4}), ("iso-noadj", {"d": 0.4}), ("iso", {"d": 1.0}), ("iso-noadj", {"d": 1.0})):
             out.append({"class": kind + "/named", "kind": kind, "pts": [[0, 0, 0], [2, 0, 0]], "lens": [2], "r": [1.0, 2.0], **extra})
@@ -91,13 +99,16 @@ class BranchSuite(Suite):
         br = Branch.from_xyzr(xyzr.copy())
         k = case["kind"]
         if k == "iso":
-            y = BranchIsometricResampler(case["d"])(br)
+            tr = BranchIsometricResampler(case["d"])
         elif k == "iso-noadj":
-            y = BranchIsometricResampler(case["d"], adjust_last_gap=False)(br)
+            tr = BranchIsometricResampler(case["d"], adjust_last_gap=False)
         elif k == "lin":
-            y = BranchLinearResampler(case["n"])(br)
+            tr = BranchLinearResampler(case["n"])
         else:
-            y = BranchConvSmoother(case["k"])(br)
+            tr = BranchConvSmoother(case["k"])
+        for q in case.get("prior") or []:
+            tr(Branch.from_xyzr(np.array([p + [rr] for p, rr in zip(q["pts"], q["r"])], dtype=np.float32)))
+        y = tr(br)
         return {"xyzr": y.xyzr().astype(float).tolist(), "input_unchanged": bool(np.array_equal(br.xyzr(), xyzr))}
 
     def lines(self, case, res):
@@ -188,6 +199,110 @@ def crit(t_pids):
     return kids, [i for i in range(len(t_pids)) if i == 0 or len(kids.get(i, [])) != 1]
 
 
+def lattice_tree(rng, pids):
+    """tree case over the parent table `pids` with axis-aligned integer edges and pairwise distinct positions (None when the walk got stuck)"""
+    nn = len(pids)
+    kids = {}
+    for i, p in enumerate(pids):
+        kids.setdefault(p, []).append(i)
+    xyz, used, st = {0: (0, 0, 0)}, {(0, 0, 0)}, [0]
+    while st:
+        v = st.pop()
+        for c in kids.get(v, []):
+            for _try in range(50):
+                ax = rng.randrange(3); L = rng.randint(1, 4) * rng.choice([-1, 1])
+                q = list(xyz[v]); q[ax] += L; q = tuple(q)
+                if q not in used:
+                    break
+            else:
+                return None
+            used.add(q); xyz[c] = q; st.append(c)
+    return {"n": nn, "pids": list(pids), "types": [1] + [3] * (nn - 1), "xyz": [[float(c) for c in xyz[i]] for i in range(nn)],
+            "r": [rng.randint(2, 8) / 4 for _ in range(nn)]}
+
+
+REUSE_SHAPES = ["chain", "stem", "star", "caterpillar", "binary", "random", "highdeg"]   # gen.parents_sorted gives exactly n nodes for these
+
+
+def reuse_sessions(rng, big):
+    """Populations handed to ONE transform object, call after call (transforms are built once and mapped over many neurons):
+    what a transform returns for a tree depends on that tree only, whatever the same object was applied to before.  Every tree of
+    a session is checked.  Sessions: trees of the SAME node count with different branching (and the same `source` label — built in
+    memory, or cut / edited from one file), one tree under two numberings, one tree before and after an edit that re-attaches a
+    sub-tree, populations of different sizes, and a tree met again after others."""
+    out = []
+
+    def mk(n, shape, numbering):
+        for _try in range(20):
+            pids = gen.parents_sorted(rng, n, shape)
+            if numbering == "root0":
+                pids = gen.renumber_root0(rng, pids)
+            t = lattice_tree(rng, pids)
+            if t is not None:
+                return t
+        return None
+
+    def reattach(t):
+        """the same nodes at the same places, one sub-tree cut off and attached to another node (an edited neuron)"""
+        n = t["n"]
+        for _try in range(30):
+            v = rng.randrange(1, n)
+            below, st = {v}, [v]
+            while st:
+                w = st.pop()
+                for c in range(n):
+                    if t["pids"][c] == w and c not in below:
+                        below.add(c); st.append(c)
+            cand = [u for u in range(n) if u not in below and u != t["pids"][v]]
+            if cand:
+                t2 = dict(t); t2["pids"] = list(t["pids"]); t2["pids"][v] = rng.choice(cand)
+                return t2
+        return None
+
+    kinds = ["same-size", "same-size", "same-size", "edited", "renumbered", "other-size", "met-again"]
+    reps = 2 if not big else 6
+    for op in ("smooth", "iso"):
+        for kind in kinds:
+            for _rep in range(reps):
+                n = rng.choice([5, 6, 8, 11] + ([25, 60] if big else []))
+                numbering = rng.choice(["sorted", "root0"])
+                trees = []
+                if kind == "same-size":
+                    for shape in rng.sample(REUSE_SHAPES, rng.choice([2, 2, 3])):
+                        trees.append(mk(n, shape, numbering))
+                elif kind == "edited":
+                    a = mk(n, rng.choice(REUSE_SHAPES[1:]), numbering)
+                    trees = [a, reattach(a) if a else None]
+                    if rng.random() < 0.5:
+                        trees.reverse()
+                elif kind == "renumbered":
+                    a = mk(n, rng.choice(REUSE_SHAPES[1:]), "sorted")
+                    if a:
+                        perm = list(range(1, n)); rng.shuffle(perm); perm = [0] + perm
+                        b = {"n": n, "pids": [0] * n, "types": a["types"], "xyz": [None] * n, "r": [None] * n}
+                        for old in range(n):
+                            b["pids"][perm[old]] = -1 if a["pids"][old] == -1 else perm[a["pids"][old]]
+                            b["xyz"][perm[old]] = a["xyz"][old]; b["r"][perm[old]] = a["r"][old]
+                        trees = [a, b]
+                    else:
+                        trees = [None]
+                elif kind == "other-size":
+                    trees = [mk(m, rng.choice(REUSE_SHAPES), numbering) for m in (n, n + rng.randint(1, 4), max(3, n - rng.randint(1, 3)))]
+                    rng.shuffle(trees)
+                else:
+                    a, b = mk(n, rng.choice(REUSE_SHAPES[1:]), numbering), mk(n, rng.choice(REUSE_SHAPES), numbering)
+                    trees = [a, b, a]
+                if any(t is None for t in trees):
+                    continue
+                # the label of where a tree came from: built in memory (''), all from one file, or one file each
+                src = rng.choice(["memory", "memory", "one-file", "file-each"])
+                sources = {"memory": [""] * len(trees), "one-file": ["population/neuron.swc"] * len(trees),
+                           "file-each": [f"population/n{q}.swc" for q in range(len(trees))]}[src]
+                arg = rng.choice([0.4, 0.5, 1.0, 1.5, 2.5]) if op == "iso" else rng.choice([3, 5, 4])
+                out.append({"class": f"{op}/reused/{kind}", "tree": trees[-1], "prior": trees[:-1], "sources": sources, "op": op, "arg": arg, "warm": None})
+    return out
+
+
 class TreeSuite(Suite):
     name = "c16.tree"
     case_timeout = 60
@@ -249,28 +364,9 @@ class TreeSuite(Suite):
                 pids = gen.renumber_root0(rng, gen.parents_sorted(rng, n, shape))
                 nn = len(pids)
                 # axis-aligned integer edges, pairwise distinct positions (so the assembler's pairing is unambiguous)
-                kids = {}
-                for i, p in enumerate(pids):
-                    kids.setdefault(p, []).append(i)
-                xyz = {0: (0, 0, 0)}
-                used = {(0, 0, 0)}
-                st = [0]
-                ok = True
-                while st and ok:
-                    v = st.pop()
-                    for c in kids.get(v, []):
-                        for _try in range(50):
-                            ax = rng.randrange(3); L = rng.randint(1, 4) * rng.choice([-1, 1])
-                            q = list(xyz[v]); q[ax] += L; q = tuple(q)
-                            if q not in used:
-                                break
-                        else:
-                            ok = False; break
-                        used.add(q); xyz[c] = q; st.append(c)
-                if not ok:
+                t = lattice_tree(rng, pids)
+                if t is None:
                     continue
-                t = {"n": nn, "pids": pids, "types": [1] + [3] * (nn - 1), "xyz": [[float(c) for c in xyz[i]] for i in range(nn)],
-                     "r": [rng.randint(2, 8) / 4 for _ in range(nn)]}
                 if nn >= 4 and rng.random() < 0.5:
                     # two sister branches that END AT THE SAME POINT, one at a tip and one at a node that carries a subtree:
                     # re-assembly has to give each branch its own end node
@@ -284,26 +380,50 @@ class TreeSuite(Suite):
                     # half of the trees have been resampled (coarsely) and smoothed before: a transform of a tree depends on the tree only
                     warm = rng.choice([None, 3.0, 2.0]) if nn >= 3 else None
                     out.append({"class": f"{op[0]}/{shape}" + ("/again" if warm else ""), "tree": t, "op": op[0], "arg": op[1], "warm": warm})
+        out += reuse_sessions(rng, big)
         return out
 
     def run(self, case):
         from swcgeom.transforms import IsometricResampler, TreeSmoother
 
-        t = gen.make_tree(case["tree"])
-        before = {k: v.copy() for k, v in t.ndata.items()}
+        session = list(case.get("prior") or []) + [case["tree"]]
+        sources = case.get("sources") or [""] * len(session)
+        trees = [gen.make_tree(td, source=src) for td, src in zip(session, sources)]
+        before = [{k: v.copy() for k, v in t.ndata.items()} for t in trees]
+        results = []
         with warnings.catch_warnings():
             warnings.simplefilter("ignore")
+            t = trees[-1]
             if case.get("warm"):
                 IsometricResampler(case["warm"])(t); TreeSmoother(3)(t); t.get_branches(); t.length()
-            y = (IsometricResampler(case["arg"]) if case["op"] == "iso" else TreeSmoother(case["arg"]))(t)
-        return {"pid": y.pid().tolist(), "id": y.id().tolist(), "xyz": y.xyz().astype(float).tolist(), "r": [float(v) for v in y.r()],
-                "length": float(y.length()), "length_in": float(t.length()),
-                "input_unchanged": bool(all(np.array_equal(before[k], t.ndata[k]) for k in before))}
+            # ONE transform object for the whole session
+            tr = IsometricResampler(case["arg"]) if case["op"] == "iso" else TreeSmoother(case["arg"])
+            for t in trees:
+                y = tr(t)
+                results.append({"pid": y.pid().tolist(), "id": y.id().tolist(), "xyz": y.xyz().astype(float).tolist(), "r": [float(v) for v in y.r()],
+                                "length": float(y.length()), "length_in": float(t.length())})
+        for t, b, r in zip(trees, before, results):
+            r["input_unchanged"] = bool(all(np.array_equal(b[k], t.ndata[k]) for k in b))
+        res = results[-1]
+        if len(results) > 1:
+            res["prior"] = results[:-1]
+        return res
 
     def oracle(self, case, res):
         t = case["tree"]
         if "exc" in res:
             return [(f"tree-{case['op']}-raises", f"{case['op']}({case['arg']}) on pids={t['pids']} raised {res['exc']}: {res.get('msg')}")]
+        # every call of a session is held to the property: the trees the transform object met before, then the tree itself
+        session = list(zip(case.get("prior") or [], res.get("prior") or [])) + [(t, res)]
+        out = []
+        for q, (tq, rq) in enumerate(session):
+            for key, msg in self.verdict(case, tq, rq):
+                if len(session) > 1:
+                    msg = f"call {q + 1} of {len(session)} of one {case['op']} transform object (pids={tq['pids']}): {msg}"
+                out.append((key, msg))
+        return out[:3]
+
+    def verdict(self, case, t, res):
         out = []
         if gen.well_formed(res["id"], res["pid"]) is not None:
             return [("resample-not-wellformed", gen.well_formed(res["id"], res["pid"]))]
@@ -362,7 +482,8 @@ class TreeSuite(Suite):
                     if x in set(cr_in):
                         break
                 n_expected = int(math.ceil(Lb / d)) + 1
-                if case["class"].startswith("iso/float") and abs(Lb / d - round(Lb / d)) < 1e-3:
+                irrational = case["class"].startswith("iso/float") or abs(Lb - round(Lb)) > 1e-9   # lattice branches have integer lengths
+                if irrational and abs(Lb / d - round(Lb / d)) < 1e-3:
                     continue      # an irrational branch length that is a multiple of the spacing up to rounding: either count is right
                 if len(chain) != n_expected:
                     out.append(("resample-branch-count", f"a branch of length {Lb} resampled at {d} has {len(chain)} nodes, expected ceil(L/d)+1 = {n_expected}")); break
